@@ -60,7 +60,8 @@ def run_case(case):
     modes = []
     if not case["target"].get("blobs"):
         modes.append(("vector", None))
-    modes.append(("pool", dict(workers=case["W"], death_at_map=case.get("death_at_map"), lazy=case.get("lazy"))))
+    for o in range(case.get("n_orders", 1)):  # the same pooled execution under several scheduler-chosen completion orders
+        modes.append(("pool", dict(workers=case["W"], death_at_map=case.get("death_at_map"), lazy=case.get("lazy"), order=o)))
     modes.append(("poolint", dict(workers=case["Wint"])))
     order_digests = set()
     for mode, pool in modes:
@@ -123,6 +124,7 @@ def cases(seed, tier):
         c["Wint"] = r.choice([1, 2, 3, 4])
         if c["scenario"] == "pool_death":
             c["death_at_map"] = r.randrange(1, 25)
+        c["n_orders"] = (2 if r.random() < 0.5 else 1) if tier == "quick" else r.choice([1, 2, 4, 8])
         c["lazy"] = r.random() < 0.3
         c["with_args"] = r.random() < 0.3
         out.append(c)
